@@ -186,6 +186,95 @@ def run_discover(scn: dict) -> list[dict]:
     return DiscoverRun(scn).go()
 
 
+class KeyScriptRun:
+    """scripts/get_device_login_key.py run as a program.  It uses a blocking socket and the wall clock, so the seam is the
+    socket constructor and the clock: a scripted datagram socket (datagrams with arrival times in ms after the start) and a
+    clock that moves only while the script waits in recvfrom.
+    scenario = {"ip": "10.0.0.5", "port": 10002, "dgrams": [{"at": ms, "src": ip, "d": datagram description | "raw": [...]}]}"""
+
+    def __init__(self, scn: dict):
+        self.scn = scn
+
+    def go(self) -> list[dict]:
+        import re
+        import socket as _socket
+        import time as _time
+        from .udpdrive import make_datagram
+        root = os.environ.get("VERIF_REPO") or "/repo"
+        script = str(Path(root) / "scripts" / "get_device_login_key.py")
+        scn = self.scn
+        queue = [{"at": it["at"], "src": it["src"], "b": bytes(it["raw"]) if "raw" in it else make_datagram(it["d"])} for it in scn["dgrams"]]
+        clock = [1790553600.0]
+        t_start = clock[0]
+        state = {"bound": [], "closed": 0, "opened": 0}
+
+        class FakeSock:
+            def __init__(self, family=None, kind=None, *a, **k):
+                self.timeout = None
+                state["opened"] += 1
+
+            def bind(self, addr):
+                state["bound"].append(addr[1])
+
+            def settimeout(self, t):
+                self.timeout = t
+
+            def setsockopt(self, *a):
+                pass
+
+            def recvfrom(self, n):
+                # the next datagram arrives at its time; if that is later than the socket waits, the wait ends first
+                wait = self.timeout
+                if wait is not None and wait < 0:
+                    raise ValueError("Timeout value out of range")
+                if queue:
+                    due = t_start + queue[0]["at"] / 1000.0
+                    if wait is None or due - clock[0] <= wait:
+                        clock[0] = max(clock[0], due)
+                        it = queue.pop(0)
+                        return it["b"][:n], (it["src"], 20002)
+                if wait is None:
+                    raise KeyboardInterrupt("the script would wait for ever")
+                clock[0] += wait
+                raise _socket.timeout("timed out")
+
+            def close(self):
+                state["closed"] += 1
+
+        real_socket, real_time = _socket.socket, _time.time
+        out = io.StringIO()
+        exc = ""
+        old_argv = sys.argv
+        try:
+            _socket.socket = FakeSock
+            def now():
+                clock[0] += 0.0004          # reading the clock takes time: a loop that polls it always gets somewhere
+                return clock[0]
+            _time.time = now
+            sys.argv = ["get_device_login_key.py", "-i", scn["ip"], "-p", str(scn["port"])]
+            with contextlib.redirect_stdout(out), contextlib.redirect_stderr(io.StringIO()):
+                try:
+                    runpy.run_path(script, run_name="__main__")
+                except SystemExit:
+                    pass
+                except BaseException as x:  # noqa: BLE001
+                    exc = type(x).__name__
+        finally:
+            _socket.socket, _time.time = real_socket, real_time
+            sys.argv = old_argv
+        text_ = out.getvalue()
+        printed = [list(m.encode()) for m in re.findall(r"Received device key: *([^\n]*)", text_)]
+        return [{"ev": "KeyScript", "ip": list(scn["ip"].encode()), "port": scn["port"],
+                 "dgrams": [{"at": it["at"], "src": list(it["src"].encode()), "b": list(bytes(it["raw"]) if "raw" in it else make_datagram(it["d"]))}
+                            for it in scn["dgrams"]],
+                 "bound": state["bound"], "printed": printed, "stopped": "Stopping the server." in text_,
+                 "closed": state["closed"] >= state["opened"] > 0, "exc": exc, "waited": int(round((clock[0] - t_start) * 1000))}]
+
+
+def run_keyscript(scn: dict) -> list[dict]:
+    return KeyScriptRun(scn).go()
+
+
 def run_scenario(scn: dict) -> list[dict]:
     with host_zone(scn.get("zone", "UTC")), frozen(scn["t0"]):
         return CliRun(scn).go()
